@@ -100,7 +100,12 @@ pub fn nontrivial(s: &crate::engine::Stats) -> bool {
 /// Instantiation with generated sub-denoms (valid and non-canonical spellings): when accepted, the
 /// created denom, the stored LST denom and the denom of the first mint must all be
 /// factory/<contract>/<sub-denom exactly as supplied>.
-pub fn check_subdenom(sub: &String, agg: &mut Agg) -> Result<(), String> {
+pub type SubCase = (String, u16, u8);
+
+pub fn check_subdenom(c: &SubCase, agg: &mut Agg) -> Result<(), String> {
+    let sub = &c.0;
+    // "all amounts": mantissa * 10^exp, 1 ..= ~10^30
+    let amount: u128 = crate::engine::Engine::sci(c.1.max(1), c.2 % 28).max(1);
     use crate::sim::Effect;
     use crate::world::*;
     use cosmwasm_std::{Coin, Uint128};
@@ -144,11 +149,26 @@ pub fn check_subdenom(sub: &String, agg: &mut Agg) -> Result<(), String> {
     if !r.ok {
         return Err(format!("sub-denom {sub:?}: resume failed: {:?}", r.err));
     }
-    ch.faucet(&a.users[0], STAKED_DENOM, 5000);
-    let r = ch.execute(&a.users[0], &[Coin::new(5000u128, STAKED_DENOM)], ExecuteMsg::LiquidStake { mint_to: None, transfer_to_native_chain: None, expected_mint_amount: None });
-    let minted: Vec<String> = r.effects.iter().filter_map(|e| if let Effect::Mint { denom, .. } = e { Some(denom.clone()) } else { None }).collect();
-    if !r.ok || minted != vec![want.clone()] || ch.balance(&a.users[0], &want) != 5000 {
-        return Err(format!("sub-denom {sub:?}: first stake ok={} err={:?} minted {:?}, expected a mint of {want}", r.ok, r.err, minted));
+    ch.faucet(&a.users[0], STAKED_DENOM, amount);
+    let r = ch.execute(&a.users[0], &[Coin::new(amount, STAKED_DENOM)], ExecuteMsg::LiquidStake { mint_to: None, transfer_to_native_chain: None, expected_mint_amount: None });
+    let minted: Vec<(String, u128, bool)> = r.effects.iter().filter_map(|e| if let Effect::Mint { denom, amount, canonical, .. } = e { Some((denom.clone(), *amount, *canonical)) } else { None }).collect();
+    if !r.ok || minted != vec![(want.clone(), amount, true)] || ch.balance(&a.users[0], &want) != amount {
+        return Err(format!("sub-denom {sub:?}: first stake of {amount} ok={} err={:?} minted {:?}, expected a mint of {amount} {want}", r.ok, r.err, minted));
+    }
+    // unstake part of it and submit the batch: the burn must carry the same denom and the exact amount
+    let part = (amount / 3).max(1);
+    let r = ch.execute(&a.users[0], &[Coin::new(part, want.as_str())], ExecuteMsg::LiquidUnstake {});
+    if !r.ok {
+        return Err(format!("sub-denom {sub:?}: unstake of {part} {want} failed: {:?}", r.err));
+    }
+    ch.time_ns += 11 * 1_000_000_000;
+    let r = ch.execute(&a.users[1], &[], ExecuteMsg::SubmitBatch {});
+    let burned: Vec<(String, u128, bool)> = r.effects.iter().filter_map(|e| if let Effect::Burn { denom, amount, canonical, .. } = e { Some((denom.clone(), *amount, *canonical)) } else { None }).collect();
+    if !r.ok || burned != vec![(want.clone(), part, true)] {
+        return Err(format!("sub-denom {sub:?}: batch submission ok={} err={:?} burned {:?}, expected a burn of {part} {want}", r.ok, r.err, burned));
+    }
+    if sub.len() >= 30 && amount >= 100_000 {
+        *agg.counters.entry("subdenom.long_with_many_digits".into()).or_insert(0) += 1;
     }
     agg.nontrivial.insert(crate::runner::fnv_pub(sub));
     Ok(())
@@ -158,18 +178,21 @@ pub fn run_subdenoms(cases: u64, seed: u64) -> RunOutput {
     use proptest::prelude::*;
     drive(
         || {
-            prop_oneof![
-                6 => "[a-zA-Z]{4,20}",
+            let sub = prop_oneof![
+                5 => "[a-zA-Z]{4,20}",
+                // the token-factory modules accept sub-denoms of up to 44 characters
+                3 => "[a-zA-Z]{21,44}",
                 1 => "[a-zA-Z]{1,3}",
                 2 => "[ \\t]{0,2}[a-zA-Z]{4,10}[ \\n]{0,2}",
                 1 => "[a-zA-Z]{2,6}[0-9/_.-][a-zA-Z]{2,6}",
                 1 => "[a-zA-Z]{4,8}\\PC{1,2}",
                 1 => Just(String::new()),
-            ]
+            ];
+            (sub, 1u16..1000, 0u8..28)
         },
         cases,
         seed,
         191,
-        |c: &String, agg: &mut Agg| check_subdenom(c, agg),
+        |c: &SubCase, agg: &mut Agg| check_subdenom(c, agg),
     )
 }
